@@ -40,7 +40,7 @@ import (
 // ParseStdin → NewTerraformFetcher → Fetch → as above.
 // ---------------------------------------------------------------------------
 
-var trickyValues = []string{`plain`, `a b`, `a%20b`, `100%`, `say "hi"`, `"}`, `{"k": "v"}`, "line1\nline2", `back\slash`, `%`, `%u0041`, `tab	x`, `ünï✓`, ``, `#notacomment`, `/* x */`, `";table evil{}`, `$ & | ; '`}
+var trickyValues = []string{`plain`, `a b`, `a%20b`, `100%`, `say "hi"`, `"}`, `{"k": "v"}`, "line1\nline2", `back\slash`, `%`, `%u0041`, `tab	x`, `ünï✓`, ``, `#notacomment`, `/* x */`, `";table evil{}`, `$ & | ; '`, "\nline", `%E3%81%82x`, `"quoted"`, `%%`, `%2`, "\ttab-first"}
 
 func drawResources(c *worker.Ctx) *simnet.Resources {
 	r := &simnet.Resources{}
@@ -503,6 +503,10 @@ func runC20(c *worker.Ctx) {
 	}
 	var second, third, fourth laterRun
 	refreshHistory := cacheHistory && c.T.Bool(1, 2)
+	tornCache, tornDone := 0, false // 1: the cache file is left empty, 2: cut in the middle
+	if cacheHistory && c.T.Bool(1, 4) {
+		tornCache = 1 + c.T.Draw(2)
+	}
 	var secondR *simnet.Resources // what the second run had to be faithful to, when r was edited after it
 	edited := ""
 	if cacheHistory {
@@ -657,6 +661,22 @@ func runC20(c *worker.Ctx) {
 					// to the fetcher's cache. Then a second run, with a healthy API,
 					// starts from what the first one left on disk.
 					f1.WriteCache(snips)
+					// the cache file as a crash of that run (or a full disk) may leave it:
+					// cut to nothing, or cut in the middle
+					if tornCache > 0 {
+						if files, _ := filepath.Glob(filepath.Join(os.Getenv("XDG_CACHE_HOME"), "falco", "*.json")); len(files) > 0 {
+							for _, f := range files {
+								if b, err := os.ReadFile(f); err == nil {
+									cut := 0
+									if tornCache == 2 {
+										cut = len(b) / 2
+									}
+									os.WriteFile(f, b[:cut], 0o644)
+									tornDone = true
+								}
+							}
+						}
+					}
 					apiHealthy = true
 					f2 := remote.NewFastlyApiFetcher("SID", "KEY", 5*time.Second)
 					second.ran = true
@@ -807,12 +827,18 @@ func runC20(c *worker.Ctx) {
 		judge(rFirst, snips, ferr, "")
 		if second.ran && len(res.Violations) == 0 {
 			res.Probe("second_run_after_cache_write")
+			if tornDone {
+				res.Fault("cache-file:torn")
+			}
 			if second.fromCache {
 				res.Probe("second_run_served_from_cache")
 			}
 			keepInjected, keepOutcome := injected, outcome
 			injected = map[string]bool{} // the second run met no fault: it must succeed and be faithful
 			how := "(second run with a healthy API after the first run's outcome was handed to the cache; "
+			if tornDone {
+				how += []string{"", "the cache file was then cut to zero length, as a crash while writing it leaves it; ", "the cache file was then cut in the middle; "}[tornCache]
+			}
 			if second.fromCache {
 				how += "served from the cache file; "
 			} else {
